@@ -196,21 +196,24 @@ type Violation struct {
 }
 
 type RunData struct {
-	Sc        *Scenario
-	Recs      []Rec
-	Listener  []LRec
-	Loader    []LdRec
-	Sec       []SecRec
-	AsyncErrs int
-	Snaps     map[string]*Snap
-	SnapAt    map[string]uint64
-	Monitor   []Violation // raised while the run proceeds (invariant monitors, in-run checks)
-	Res       *simrt.Result
-	Store     *internal.Store[K, V]
-	Clock0    int64 // simulated time at which the cache was built
-	MonChecks int
-	InFlight  []*Rec
-	Pending   []PendingNote
+	Sc           *Scenario
+	Recs         []Rec
+	Listener     []LRec
+	Loader       []LdRec
+	Sec          []SecRec
+	AsyncErrs    int
+	Snaps        map[string]*Snap
+	SnapAt       map[string]uint64
+	Monitor      []Violation // raised while the run proceeds (invariant monitors, in-run checks)
+	Res          *simrt.Result
+	Store        *internal.Store[K, V]
+	Clock0       int64 // simulated time at which the cache was built
+	MonChecks    int
+	InFlight     []*Rec
+	Pending      []PendingNote
+	ClientTask   []int // task id of client c at index c+1
+	Checked      int   // histories checked by porcupine
+	Inconclusive int   // porcupine timeouts (never reported, never a pass)
 }
 
 // PendingNote: a removal notification that was missing at some instant; the
@@ -307,3 +310,9 @@ func firstLine(s string) string {
 	}
 	return s
 }
+
+// ClockStart converts simulated absolute time to the store clock's relative
+// nanoseconds: relative = simNow - (start - epoch).
+func (rd *RunData) ClockStart(sn *Snap) int64 { return sn.ClockStart - simEpochNanos }
+
+const simEpochNanos = int64(1735689600) * 1e9
